@@ -670,6 +670,10 @@ impl BuiltInFunction {
                     unreachable!()
                 };
 
+                if !(2..=36).contains(radix) {
+                    bail!("`{radix}` is an invalid radix (a radix lies in the range 2 ..= 36)")
+                }
+
                 let s = if s.starts_with("0x") {
                     s.get(2..).unwrap_or_default()
                 } else {
@@ -698,6 +702,10 @@ impl BuiltInFunction {
                 let Some(Primitive::Int(radix)) = arguments.get(1) else {
                     unreachable!()
                 };
+
+                if !(2..=36).contains(radix) {
+                    bail!("`{radix}` is an invalid radix (a radix lies in the range 2 ..= 36)")
+                }
 
                 let s = if s.starts_with("0x") {
                     s.get(2..).unwrap_or_default()
